@@ -29,7 +29,7 @@ DECIDES = ('V1h: every _handle_* optimisation handler names an existing builtin 
            'MINMAX (= C01-MINMAX) and ANYALL: the trees built for min/max and any/all(genexpr) have the comparison / early-exit semantics of the builtins for every outcome; '
            'HTAB: for every _handle_simple_method_* handler and 1..5 arguments: omitted arguments are filled with the method\'s default (start 0, end PY_SSIZE_T_MAX, maxsplit / '
            'count -1, sep NULL, dict default None), direction constants of startswith/endswith/find/rfind agree with the C-API reference, NULL is only passed to a parameter '
-           'the C helper tests (or forwards to one that does), a helper declared to return a status code replaces a value-returning method only when the result is unused, '
+           'the C helper tests (or forwards to one that does) and - round 8 - that the helper READS in every preprocessor configuration: a helper that ignores the parameter (no use, or only unused-variable markers) cannot tell m(a) from m(a, x), reported when the result is used, or unused and the method is in the reference table of methods whose omitted argument is observable without the result (dict.pop: KeyError, dict.setdefault: stored value); a helper declared to return a status code replaces a value-returning method only when the result is unused, '
            '`is_<attr>` flag arguments have the polarity of the attribute they are computed from; '
            'TABNAME: BuiltinMethod rows and per-type C name selections name the helper of that method / type (the helper calls the method of that name, or C-API naming); '
            'WITHERR: PyErr_Occurred() is consulted on the NULL path of PyDict_GetItemWithError / _PyDict_GetItem_KnownHash; '
@@ -79,6 +79,10 @@ MUTATIONS = [   # (file, single edit on a scratch copy, rule that reported it)
     ('Cython/Compiler/Optimize.py', "round 7: seed C13j, codec-encode-{guard-ignore,args-swapped,dash-guard,1arg-latin1}, codec-decode-{errors-null,wrong-codec}, codec-unpack-strict-inverted", 'C13-CODEC'),
     ('behaviour-preserving (all silent)', "round 7: ok-ident-list-negated, ok-ident-frozenset-istype, ok-site-list-local, ok-codec-encode-nested, ok-codec-unpack-rewrite, ok-codec-decode-keep-encoding", 'silent'),
     ('not reported (declined)', "isinstance-exact, isinstance-and, ord-length-guard: see NOT_DECIDED", 'none'),
+    ('Cython/Compiler/Optimize.py, Utility/Optimize.c', "round 8 (session K4): seed C13l (dict.pop(k) as a statement gets __Pyx_PyDict_Pop_ignore), k4-dictpop-ignore-{after-append,2args-explicit,hoisted,helper-variant}, "
+                                                       "k4-c-dictpop-{ignores-default,untested-313}", 'C13-HTAB null-ignored / null'),
+    ('not reported (declined)', "k4-c-dictpop-none-for-null (`default_value ? default_value : Py_None` handed to _PyDict_Pop: the parameter is tested, the substituted value is wrong - C-API semantics)", 'none'),
+    ('behaviour-preserving (all silent)', "round 8: k4-ok-dictpop-count-first, k4-ok-dictpop-flag-local, k4-ok-c-popignore-void-cast", 'silent'),
     ('behaviour-preserving (all silent)', "ok-anyall-rewrite, ok-popindex-rewrite (conditional expression, early-return fallback), ok-tailmatch-kwargs, ok-dictget-rewrite "
                                           "(else-if form), ok-len-table-order, ok-bytes-clamp-rewrite (nested ifs), ok-listpop-rewrite (size in a local), ok-setremove-rewrite "
                                           "(!found / found == -1), sum-operand-order (an edit inside the name-mangled, never dispatched __handle_simple_function_sum)", 'silent'),
@@ -89,9 +93,15 @@ MUTATIONS = [   # (file, single edit on a scratch copy, rule that reported it)
 ]
 
 
+def _dD10():
+    from ..rules import dD10
+    return dD10
+
+
 def run(ctx):
     # sC13.rule_uscore(ctx, pending=True) checks the constructs of FINDING_1 (float("1e+_5"), the non-ASCII copy loop)     # pending finding
     return [handlers.rule_V1h(ctx), typed.rule_I3(ctx), typed.rule_I4(ctx), iface.rule_I5(ctx), iface.rule_I6(ctx),
             handlers.rule_arg_guards(ctx), trn.rule_TRN2(ctx), trn.rule_TRN2b(ctx),
             sC13.rule_uscore(ctx), sC13.rule_uscore(ctx, pending=True), sC13.rule_nonearg(ctx), sC13.rule_popix(ctx), sC13.rule_minmax(ctx), sC13.rule_anyall(ctx), sC13.rule_htab(ctx), sC13.rule_tabname(ctx), sC13.rule_witherr(ctx), sC13.rule_slice(ctx), sC13.rule_listpop(ctx), sC13.rule_tristate(ctx),
-            s7C13.rule_ident(ctx), s7C13.rule_ident_site(ctx), s7C13.rule_codec(ctx)]
+            s7C13.rule_ident(ctx), s7C13.rule_ident_site(ctx), s7C13.rule_codec(ctx),
+            _dD10().rule_idxovf(ctx)]         # C13-IDXOVF (rules/dD10.py), armed after the repairs 43a8e0658 and 23cdba3dd
